@@ -300,11 +300,11 @@ func (info *decodeInfo) decodeCharString(code []byte) (*Glyph, error) {
 					if math.Abs(dx) > math.Abs(dy) {
 						rCurveTo(stack[6], stack[7],
 							stack[8], stack[9],
-							extra, 0)
+							extra, -dy)
 					} else {
 						rCurveTo(stack[6], stack[7],
 							stack[8], stack[9],
-							0, extra)
+							-dx, extra)
 					}
 					// fd = 0.5
 				}
